@@ -57,6 +57,9 @@
 #include "orange/transform/Translation.hh"
 #include "orange/transform/VariantTransform.hh"
 
+#include <sys/wait.h>
+#include <unistd.h>
+
 #include "vjson.hh"
 
 using namespace celeritas;
@@ -401,8 +404,11 @@ struct Names
 std::string what_of(std::exception const& e)
 {
     std::string w = e.what();
-    if (w.size() > 600)
-        w.resize(600);
+    if (w.size() > 400)
+        w.resize(400);
+    for (char& c : w)  // keep the message printable inside TLC's quoted SUMMARY string
+        if (c == '"' || c == '\\' || c == '\n' || c == '\r' || c == '\t' || static_cast<unsigned char>(c) > 126)
+            c = c == '"' ? '\'' : ' ';
     return w;
 }
 
@@ -448,7 +454,13 @@ int run_probe(std::string const& scenes_path, std::string const& out_path)
         double off[3] = {0.5 * g.at("off")[0].get<int>(), 0.5 * g.at("off")[1].get<int>(), 0.5 * g.at("off")[2].get<int>()};
         Names names;
         std::vector<json> slabs;
-        for (int iz = 0; iz < n; ++iz)
+        std::vector<int> zs;
+        if (auto it = g.find("zs"); it != g.end())
+            zs = it->get<std::vector<int>>();
+        else
+            for (int iz = 0; iz < n; ++iz)
+                zs.push_back(iz);
+        for (int iz : zs)
         {
             json lab = json::array();
             json fail = json::array();
@@ -616,6 +628,40 @@ bool json_has_involute(json const& j)
     return false;
 }
 
+// Try the reader in a child process: "ok", "exit N" (exception) or "signal N" (crash)
+std::string try_read_in_child(std::string const& text)
+{
+    if (g_out)
+        g_out->flush();
+    pid_t pid = fork();
+    if (pid < 0)
+        return "fork failed";
+    if (pid == 0)
+    {
+        std::signal(SIGSEGV, SIG_DFL);
+        std::signal(SIGABRT, SIG_DFL);
+        std::signal(SIGFPE, SIG_DFL);
+        std::set_terminate([] { std::_Exit(8); });
+        alarm(30);
+        try
+        {
+            OrangeInput b;
+            std::istringstream is(text);
+            is >> b;
+            std::_Exit(b ? 0 : 9);
+        }
+        catch (...)
+        {
+            std::_Exit(7);
+        }
+    }
+    int st = 0;
+    waitpid(pid, &st, 0);
+    if (WIFSIGNALED(st))
+        return "signal " + std::to_string(WTERMSIG(st));
+    return WEXITSTATUS(st) == 0 ? "ok" : "exit " + std::to_string(WEXITSTATUS(st));
+}
+
 // Straight rays: per ray a flat list  label, dist-token, label, dist-token, ...
 json trace_rays(std::shared_ptr<OrangeParams const> params,
                 int nrays,
@@ -685,7 +731,14 @@ int run_roundtrip(std::string const& scenes_path,
         std::string f;
         while (std::getline(fin, f))
             if (!f.empty())
-                items.push_back({f.substr(f.rfind('/') + 1), "fixture", {}, f});
+            {
+                // name = <test dir>/<file>, e.g. orange/rect-array.org.json
+                auto p1 = f.rfind('/');
+                auto p2 = f.rfind("/data/");
+                auto p3 = p2 == std::string::npos ? std::string::npos : f.rfind('/', p2 - 1);
+                std::string dir = (p2 != std::string::npos && p3 != std::string::npos) ? f.substr(p3 + 1, p2 - p3 - 1) + "/" : "";
+                items.push_back({dir + f.substr(p1 + 1), "fixture", {}, f});
+            }
         std::ifstream sin(scenes_path);
         std::string line;
         while (std::getline(sin, line))
@@ -704,12 +757,19 @@ int run_roundtrip(std::string const& scenes_path,
             if (it.kind == "fixture")
             {
                 std::ifstream f(it.file);
-                json j = json::parse(f);
-                if (json_has_involute(j))
+                std::stringstream ss;
+                ss << f.rdbuf();
+                if (json_has_involute(json::parse(ss.str())))
                 {
-                    // the READER cannot construct involute surfaces (CELER_ASSERT_UNREACHABLE)
-                    out(json{{"e", "Deviation"}, {"name", it.name}, {"kind", it.kind}, {"dev", "InvoluteReadUnimplemented"}, {"stage", "load"}});
-                    continue;
+                    // the READER cannot construct involute surfaces (CELER_ASSERT_UNREACHABLE):
+                    // confirm in a child process; if the reader copes, go on with the round trip
+                    std::string child = try_read_in_child(ss.str());
+                    if (child != "ok")
+                    {
+                        out(json{{"e", "Deviation"}, {"name", it.name}, {"kind", it.kind}, {"dev", "InvoluteReadUnimplemented"},
+                                 {"stage", "load"}, {"child", child}});
+                        continue;
+                    }
                 }
                 std::ifstream f2(it.file);
                 f2 >> a;
@@ -725,9 +785,13 @@ int run_roundtrip(std::string const& scenes_path,
             std::string text = os.str();
             if (json_has_involute(json::parse(text)))
             {
-                out(json{{"e", "Deviation"}, {"name", it.name}, {"kind", it.kind}, {"dev", "InvoluteReadUnimplemented"},
-                         {"stage", "reread"}, {"fields", pa.listed.size()}});
-                continue;
+                std::string child = try_read_in_child(text);
+                if (child != "ok")
+                {
+                    out(json{{"e", "Deviation"}, {"name", it.name}, {"kind", it.kind}, {"dev", "InvoluteReadUnimplemented"},
+                             {"stage", "reread"}, {"child", child}});
+                    continue;
+                }
             }
             OrangeInput b;
             std::istringstream is(text);
